@@ -33,6 +33,8 @@ def check(repo: Repo, rep, tier):
     wholefile_gate(repo, rep)
     import_only(repo, rep)
     io_newline(repo, rep)
+    io_encoding(repo, rep)
+    line_model(repo, rep)
 
 
 def edit_calls(repo: Repo):
@@ -354,3 +356,162 @@ def io_newline(repo: Repo, rep):
                 "SourceFile.new_code reads the file with universal newlines (read_text) while rewrite() writes the result in binary: a CRLF test file comes back with LF on every line although only a snapshot argument was changed",
                 construct=f"{c.func.attr}({', '.join(norm(a) for a in c.args)})",
             )
+
+
+def _utf8(e) -> bool:
+    return isinstance(e, ast.Constant) and isinstance(e.value, str) and e.value.lower().replace("_", "-") in ("utf-8", "utf8")
+
+
+def io_encoding(repo: Repo, rep):
+    rep.rule(
+        "R-IO-ENCODING",
+        "reader/writer agreement on the test file: every text-mode access of the file in _rewrite_code.py (read_text / write_text / open without 'b') names "
+        "UTF-8 explicitly, and a binary access converts with str.encode()/bytes.decode() whose codec is the default or 'utf-8' - a locale-dependent default "
+        "(write_text(text), open(f, 'w')) writes Latin-1 / fails with UnicodeEncodeError after truncating the file under a non-UTF-8 locale",
+    )
+    n = 0
+    for f in repo.pkg_funcs():
+        if f.module.rel != "_rewrite_code.py":
+            continue
+        for c in [x for x in body_nodes(f.node) if isinstance(x, ast.Call)]:
+            name = c.func.attr if isinstance(c.func, ast.Attribute) else norm(c.func)
+            kw = {k.arg: k.value for k in c.keywords if k.arg}
+            if name in ("read_text", "write_text"):
+                n += 1
+                enc = kw.get("encoding")
+                if enc is None:
+                    pos = 0 if name == "read_text" else 1
+                    enc = c.args[pos] if len(c.args) > pos else None
+                if enc is not None and _utf8(enc):
+                    rep.ok("R-IO-ENCODING", f, c, f"{name} with explicit UTF-8")
+                else:
+                    rep.violation("R-IO-ENCODING", f, c, f"`{short(c, 60)}` in {f.qualname} uses the locale's default encoding: the file is read as UTF-8 elsewhere, so under a non-UTF-8 locale non-ASCII text is written in another encoding or the write fails after the file was truncated", construct=f"{f.qualname}:{name}")
+            elif name == "open" and c.args:
+                n += 1
+                mode = c.args[1] if len(c.args) > 1 else kw.get("mode")
+                m = mode.value if isinstance(mode, ast.Constant) else "r"
+                if "b" in str(m):
+                    rep.ok("R-IO-ENCODING", f, c, "binary open")
+                elif _utf8(kw.get("encoding")) if kw.get("encoding") is not None else False:
+                    rep.ok("R-IO-ENCODING", f, c, "text open with explicit UTF-8")
+                else:
+                    rep.violation("R-IO-ENCODING", f, c, f"`{short(c, 60)}` in {f.qualname} opens the test file in text mode without encoding='utf-8'", construct=f"{f.qualname}:open")
+            elif name in ("encode", "decode") and isinstance(c.func, ast.Attribute):
+                n += 1
+                enc = c.args[0] if c.args else kw.get("encoding")
+                if enc is None or _utf8(enc):
+                    rep.ok("R-IO-ENCODING", f, c, f".{name}() with UTF-8")
+                else:
+                    rep.violation("R-IO-ENCODING", f, c, f"`{short(c, 60)}` converts the file content with a codec other than UTF-8", construct=f"{f.qualname}:{name}")
+    rep.floor("R-IO-ENCODING", "file accesses / conversions in _rewrite_code.py", n, 3)
+
+
+POSITION_MODULES = ("_rewrite_code.py", "_change.py", "_find_external.py", "_source_file.py")
+_TAINT_THROUGH = {"len", "sum", "list", "tuple", "enumerate", "zip", "range", "sorted", "reversed", "min", "max", "iter", "next", "accumulate", "itertools.accumulate"}
+
+
+def line_model(repo: Repo, rep):
+    rep.rule(
+        "R-LINE-MODEL",
+        "positions in a test file are (line, column) pairs of the Python tokenizer, whose lines end at \\n, \\r\\n and \\r only; `str.splitlines()` also splits at "
+        "\\f, \\v, \\x1c-\\x1e, \\x85, U+2028 and U+2029.  In the modules that compute positions / offsets no value derived from `.splitlines()` (through "
+        "indexing, len(), arithmetic, loops, comprehensions, container methods) reaches a return value, a position/offset argument, or a subscript index: "
+        "a form feed in a licence header or a U+2028 inside a string literal shifts every later edit by a line.  Passing the lines to a diff/report "
+        "function is not a position use",
+    )
+    n = 0
+    for f in repo.pkg_funcs():
+        if f.module.rel not in POSITION_MODULES:
+            continue
+        srcs = [c for c in body_nodes(f.node) if isinstance(c, ast.Call) and isinstance(c.func, ast.Attribute) and c.func.attr == "splitlines"]
+        if not srcs:
+            continue
+        tainted_names: set = set()
+        tainted_nodes = {id(c) for c in srcs}
+
+        def tainted(e) -> bool:
+            if id(e) in tainted_nodes:
+                return True
+            if isinstance(e, ast.Name):
+                return e.id in tainted_names
+            if isinstance(e, ast.Call):
+                fn = norm(e.func)
+                if fn in _TAINT_THROUGH:
+                    return any(tainted(a) for a in e.args)
+                if isinstance(e.func, ast.Attribute) and e.func.attr in ("copy", "index", "count", "__len__"):
+                    return tainted(e.func.value)
+                return False  # any other call (unified_diff, join, print...) consumes the lines as text
+            if isinstance(e, (ast.Subscript,)):
+                return tainted(e.value) or tainted(e.slice)
+            if isinstance(e, ast.Attribute):
+                return tainted(e.value)
+            if isinstance(e, (ast.BinOp,)):
+                return tainted(e.left) or tainted(e.right)
+            if isinstance(e, ast.UnaryOp):
+                return tainted(e.operand)
+            if isinstance(e, (ast.Tuple, ast.List, ast.Set)):
+                return any(tainted(x) for x in e.elts)
+            if isinstance(e, ast.IfExp):
+                return tainted(e.body) or tainted(e.orelse)
+            if isinstance(e, ast.Starred):
+                return tainted(e.value)
+            if isinstance(e, (ast.ListComp, ast.GeneratorExp, ast.SetComp)):
+                loc = set()
+                for g in e.generators:
+                    if tainted(g.iter):
+                        loc |= {x.id for x in ast.walk(g.target) if isinstance(x, ast.Name)}
+                old = set(tainted_names)
+                tainted_names.update(loc)
+                r = tainted(e.elt)
+                tainted_names.clear()
+                tainted_names.update(old)
+                return r
+            return False
+
+        # fixed point over the function's assignments / loops / container updates
+        for _ in range(6):
+            before = len(tainted_names)
+            for st in body_nodes(f.node):
+                if isinstance(st, ast.Assign) and tainted(st.value):
+                    for t in st.targets:
+                        tainted_names |= {x.id for x in ast.walk(t) if isinstance(x, ast.Name) and isinstance(x.ctx, ast.Store)}
+                if isinstance(st, ast.AugAssign) and tainted(st.value) and isinstance(st.target, ast.Name):
+                    tainted_names.add(st.target.id)
+                if isinstance(st, ast.For) and tainted(st.iter):
+                    tainted_names |= {x.id for x in ast.walk(st.target) if isinstance(x, ast.Name)}
+                if isinstance(st, ast.Call) and isinstance(st.func, ast.Attribute) and st.func.attr in ("append", "extend", "insert", "add") and isinstance(st.func.value, ast.Name) and any(tainted(a) for a in st.args):
+                    tainted_names.add(st.func.value.id)
+            if len(tainted_names) == before:
+                break
+        sinks = []
+        for st in body_nodes(f.node):
+            if isinstance(st, ast.Return) and st.value is not None and tainted(st.value):
+                sinks.append((st, "is returned"))
+            if isinstance(st, ast.Subscript) and id(st) not in tainted_nodes and not tainted(st.value) and tainted(st.slice):
+                sinks.append((st, "indexes another sequence"))
+            if isinstance(st, ast.Call) and id(st) not in tainted_nodes:
+                fn = norm(st.func)
+                if fn.split(".")[-1] in ("SourcePosition", "SourceRange", "insert", "replace", "line_to_offset", "offset_to_line") and (any(tainted(a) for a in st.args) or any(tainted(k.value) for k in st.keywords)):
+                    sinks.append((st, f"is handed to {fn}()"))
+        for c in srcs:
+            n += 1
+            if sinks:
+                st, how = sinks[0]
+                rep.violation(
+                    "R-LINE-MODEL",
+                    f,
+                    c,
+                    f"{f.qualname}: a value computed from `{short(c, 50)}` {how} (line {getattr(st, 'lineno', 0)}): str.splitlines() has more line boundaries than the tokenizer that produced "
+                    "the (line, column) positions, so an edit lands on the wrong line when the file contains \\f, \\x1c-\\x1e, \\x85, U+2028 or U+2029",
+                    construct=f"{f.qualname}:splitlines",
+                )
+            else:
+                rep.ok("R-LINE-MODEL", f, c, "splitlines() result is used as text only (diff / report)")
+    rep.count("splitlines_calls_in_position_modules", n)
+    # the conversion itself: SourcePosition.offset must delegate to a line_to_offset of the line-number table it is given
+    off = repo.find_func("_rewrite_code.py", "SourcePosition.offset")
+    if off is not None:
+        rets = [r for r in body_nodes(off.node) if isinstance(r, ast.Return) and r.value is not None]
+        good = rets and all(isinstance(r.value, ast.Call) and isinstance(r.value.func, ast.Attribute) and r.value.func.attr == "line_to_offset" for r in rets)
+        if good:
+            rep.ok("R-LINE-MODEL", off, rets[0], "offsets come from LineNumbers.line_to_offset (asttokens' own line table)")
